@@ -268,6 +268,12 @@ func (l *Lexer) readRune() (r byte) {
 	if l.input.InputPosition < l.input.Length {
 		r = l.input.RawBytes[l.input.InputPosition]
 
+		if r == runes.EOF {
+			// a NUL byte reads as EOF and must end the input for every reader: it is not consumed, so a
+			// string or comment that runs into it ends there and the next Read reports EOF as well
+			return
+		}
+
 		if r == runes.LINETERMINATOR {
 			l.input.TextPosition.LineStart++
 			l.input.TextPosition.CharStart = 1
